@@ -19,6 +19,7 @@ from __future__ import annotations
 
 import json
 import math
+import sys
 from fractions import Fraction
 from typing import Any
 
@@ -30,6 +31,7 @@ from harness.common import Result
 from harness.common import rat
 
 PID = "C06"
+sys.set_int_max_str_digits(0)  # the exact replay of an accelerated run produces very long rationals
 
 TRUSTED_EXTRA = (
     "C06: harness disciplines (harness/c06_disc.py) are deterministic functions of their inputs; their twins in the oracle are written independently over Fraction/math",
@@ -533,3 +535,180 @@ def oracle(case: dict[str, Any], obs: dict[str, Any]) -> list[tuple[str, str]]:
             bad.append((f"{kc}:solution", f"{tag}: returned couplings are at distance {float(dist):.3e} from the exact solution > 2*tol*scale = {float(2 * bound):.3e}"))
         prev_out = vals
     return bad
+
+
+# --------------------------------------------------------------------------- model side (Lean driver)
+
+ACCEL_TOKEN = {"NoTransformation": "none", "Aitken": "aitken", "Secant": "secant", "AlternateDeltaSquared": "adsq"}
+ALGO_TOKEN = {"MDAJacobi": "j", "MDAGaussSeidel": "g", "MDANewtonRaphson": "n"}
+ACCEL_CAP = 7  # replay budget for the accelerated runs (exact rationals triple in size at every Aitken step)
+
+
+def replayable(case: dict[str, Any]) -> bool:
+    """Cases the Lean model replays: affine systems, elementary solver, rational acceleration formulas."""
+    m = case["mda"]
+    if any(d["kind"] != "lin" for d in case["discs"]):
+        return False
+    if m["cls"] not in ALGO_TOKEN or m["accel"] not in ACCEL_TOKEN:
+        return False
+    return m["cls"] == "MDAJacobi" or case["shape"] == "strong"
+
+
+def protocol_lines(case: dict[str, Any]) -> list[str]:
+    """`sys`, `cfg` and one `run` line per execution (flattened affine system, see Driver/C06.lean)."""
+    sysm = System(case)
+    sizes = sysm.sizes
+    names = sorted(sysm.outputs)
+    off, n = {}, 0
+    for o in names:
+        off[o] = n
+        n += sizes[o]
+    rows_coef: list[list[Fraction]] = []
+    for o in names:
+        spec = sysm.discs[sysm.out_owner[o]]["outs"][o]
+        for r in range(sizes[o]):
+            row = [Fraction(0)] * n
+            for i, mat in spec["m"].items():
+                if i in off:
+                    for c, a in enumerate(mat[r]):
+                        row[off[i] + c] += Fraction(a)
+            rows_coef.append(row)
+    discs = []
+    for k in case["order"]:
+        idx = [off[o] + r for o in sysm.discs[k]["outs"] for r in range(sizes[o])]
+        discs.append(",".join(map(str, idx)))
+    cpl = sysm.couplings
+    res = [off[o] + r for o in cpl for r in range(sizes[o])]
+    groups, pos = [], 0
+    for o in cpl:
+        groups.append(",".join(str(pos + r) for r in range(sizes[o])))
+        pos += sizes[o]
+    m = case["mda"]
+    accelerated = m["accel"] != "NoTransformation"
+    lines = [
+        "sys " + ";".join(common.rats(r) for r in rows_coef) + " " + "|".join(discs),
+        "cfg {} {} {} {} {} {} {} {} {} {}".format(
+            ALGO_TOKEN[m["cls"]],
+            ",".join(map(str, res)) or "[]",
+            "|".join(groups) or "[]",
+            ",".join(map(str, res)) or "[]",
+            m["tol"],
+            m["max_iter"],
+            SCALINGS.index(m["scaling"]),
+            m["omega"],
+            ACCEL_TOKEN[m["accel"]],
+            1 if m["warm"] else 0,
+        ),
+    ]
+    for run in case["runs"]:
+        x = [Fraction(t) for t in run["x"]]
+        consts, start = [], []
+        for o in names:
+            spec = sysm.discs[sysm.out_owner[o]]["outs"][o]
+            for r in range(sizes[o]):
+                c = Fraction(spec["c"][r])
+                if "x" in spec["m"]:
+                    c += sum(Fraction(a) * t for a, t in zip(spec["m"]["x"][r], x))
+                consts.append(c)
+                y0 = run.get("y0", {}).get(o)
+                start.append(Fraction(y0[r]) if y0 is not None else Fraction(0))
+        fuel = ACCEL_CAP if accelerated else int(m["max_iter"]) + 2
+        lines.append(f"run {fuel} {common.rats(consts)} {common.rats(start)}")
+    return lines
+
+
+def parse_run_answer(ans: str) -> dict[str, Any]:
+    toks = ans.split(" ")
+    if len(toks) != 5 or not toks[1].startswith("it="):
+        return {"outcome": "bad:" + ans[:60]}
+
+    def lst(t: str) -> list[Fraction]:
+        t = t.split("=", 1)[1]
+        return [] if t == "[]" else [Fraction(v) for v in t.split(",")]
+
+    return {"outcome": toks[0], "it": int(toks[1][3:]), "hist": lst(toks[2]), "raw": lst(toks[3]), "out": lst(toks[4])}
+
+
+def fsqrt(q: Fraction) -> float:
+    """Float square root of a non-negative rational (correct to ~1e-15 relative)."""
+    if q <= 0:
+        return 0.0
+    num, den = q.numerator, q.denominator
+    # scale to keep 128 significant bits
+    shift = max(0, 256 - (num.bit_length() - den.bit_length()))
+    shift += shift % 2
+    v = math.isqrt((num << shift) // den)
+    return v / 2.0 ** (shift // 2) if shift // 2 < 1000 else float(Fraction(v, 2 ** (shift // 2)))
+
+
+def compare_with_model(case: dict[str, Any], obs: dict[str, Any], answers: list[str]) -> list[str]:
+    """Differences between the real MDA and the exact replay.
+
+    Rounded stream: a normed residual of the code must equal the model's within
+    `rel * model + noise`, where `rel` = 2^-30 (2^-20 with an acceleration: the extrapolation
+    coefficients are quotients of differences of residuals) and `noise` = 2^-38 * (1 + max|y|) / scale is
+    the rounding noise of a residual `G(y) - y` computed in floats, divided by the smallest scale the
+    model used. The iteration count is compared only when no model residual is within that band of the
+    tolerance.
+    """
+    diffs: list[str] = []
+    m = case["mda"]
+    accelerated = m["accel"] != "NoTransformation"
+    rel = 2.0**-20 if accelerated else 2.0**-30
+    tol = float(Fraction(m["tol"]))
+    sysm = System(case)
+    names = sorted(sysm.outputs)
+    for ridx, (r, ans) in enumerate(zip(obs["runs"], answers)):
+        mod = parse_run_answer(ans)
+        tag = f"run{ridx}"
+        if mod["outcome"].startswith("bad"):
+            diffs.append(f"{tag}: driver answered {mod['outcome']}")
+            break
+        if "exc" in r:
+            diffs.append(f"{tag}: code raised {r['exc']}, model: {mod['outcome']}")
+            break
+        ih = r["history"]
+        if not all(math.isfinite(h) for h in ih):
+            if mod["outcome"] != "nan":
+                diffs.append(f"{tag}: non-finite residual history in the code, model: {mod['outcome']}")
+            break
+        if mod["outcome"] == "nan":
+            diffs.append(f"{tag}: model divides by zero in the acceleration, code history finite")
+            break
+        ymax = max([abs(v) for o in names for v in r["out"].get(o, [0.0])] + [abs(float(v)) for v in mod["out"]] + [1.0])
+        inv_scale = max([fsqrt(h / w) for h, w in zip(mod["hist"], mod["raw"]) if w > 0] + [1.0])
+        noise = 2.0**-38 * (1 + ymax) * inv_scale * (8 if accelerated else 1)
+        safe = True
+        for k, (a, b) in enumerate(zip(ih, mod["hist"])):
+            sb = fsqrt(b)
+            band = rel * sb + noise
+            if abs(sb - tol) <= 2 * band:
+                safe = False
+            if not abs(a - sb) <= band:
+                diffs.append(f"{tag}: normed residual of iteration {k + 1}: code {a!r}, model {sb!r} (band {band:.2e})")
+                break
+        if diffs:
+            break
+        if mod["outcome"] == "capped":
+            if len(ih) < len(mod["hist"]) and safe:
+                diffs.append(f"{tag}: code stopped after {len(ih)} iterations, model still iterating after {len(mod['hist'])}")
+                break
+            # the state of the model after a capped run is not the state of the code: stop comparing
+            break
+        if safe and len(ih) != mod["it"]:
+            diffs.append(f"{tag}: code performed {len(ih)} iterations, model {mod['it']} ({mod['outcome']})")
+            break
+        if len(ih) != mod["it"]:
+            break  # decision within the rounding margin: later runs start from different states
+        # returned data
+        flat = [v for o in names for v in r["out"].get(o, [])]
+        if len(flat) != len(mod["out"]):
+            diffs.append(f"{tag}: returned data has {len(flat)} components, model {len(mod['out'])}")
+            break
+        for k, (a, b) in enumerate(zip(flat, mod["out"])):
+            if not abs(a - float(b)) <= (rel + 2.0**-36) * max(abs(float(b)), 1.0) + noise:
+                diffs.append(f"{tag}: returned component {k}: code {a!r}, model {float(b)!r}")
+                break
+        if diffs:
+            break
+    return diffs
